@@ -54,9 +54,16 @@ theorem inplace_ops_on_fresh :
   decide +kernel
 
 /-- **no_shared_writes** — outside the command-line tool's `main`, no function assigns to a
-    package-level variable (no caches, counters or memo tables shared between queries). -/
+    package-level variable or calls a mutating/synchronising method (Store, LoadOrStore, Delete, Lock, …)
+    on one (no caches, counters or memo tables shared between queries); the CLI's directory walker only
+    adds to its WaitGroup. -/
 theorem no_shared_writes :
-    (Generated.globalWrites.all fun w => w.1 == "main.main") = true := by decide +kernel
+    (Generated.globalWrites.all fun w => w.1 == "main.main" || w == ("main.walker", "fileSync.Add")) = true := by decide +kernel
+
+/-- **one_write_per_block** — the command-line tool writes to standard output in exactly one place:
+    the single `fmt.Print` of a file's whole block in `executeXpath` (the premise of `cli_output_perm`) -/
+theorem one_write_per_block :
+    Generated.stdoutWrites = [("main.executeXpath", "fmt.Print")] := by decide +kernel
 
 /-- **builder_not_event_recursive** — no function of the store package calls itself
     (the tree builder is a loop; its stack use does not grow with the number of events). -/
